@@ -54,15 +54,21 @@ def dump(e):
 
 
 # ------------------------------------------------------------------ hints (UNTRUSTED: only candidates for the Coq checker)
-def clean(fr):
-    """the exact value a float most probably stands for: a small fraction or a short decimal within 1e-14 (relative)"""
+LEVELS = (14, 12, 10, 9, 8)      # assumed relative noise 10^-(level-1) of sympy's float arithmetic (cancellation makes it larger)
+
+
+def clean(fr, level=14):
+    """the exact value a float most probably stands for: a fraction with a small denominator or the shortest decimal
+    within the assumed noise"""
     if fr == 0:
         return fr
-    cands = [fr.limit_denominator(1000)]
-    for digits in (6, 8, 10, 12, 13, 14, 15):
-        cands.append(Fraction("%.*g" % (digits, float(fr))))
-    for c in cands:
-        if abs(c - fr) <= abs(fr) * Fraction(1, 10 ** 14):
+    tol = abs(fr) * Fraction(1, 10 ** (level - 1))
+    c = fr.limit_denominator(10 ** 5)
+    if abs(c - fr) <= tol:
+        return c
+    for digits in range(1, 16):
+        c = Fraction("%.*g" % (digits, float(fr)))
+        if abs(c - fr) <= tol:
             return c
     return fr
 
@@ -71,11 +77,11 @@ def frac_text(fr):
     return str(fr.numerator) if fr.denominator == 1 else "%d/%d" % (fr.numerator, fr.denominator)
 
 
-def exact_text(e):
+def exact_text(e, level=14):
     if e.func is Float:
         sign, man, exp, _bc = e._mpf_
         v = Fraction(int(man)) * (Fraction(2) ** int(exp))
-        return frac_text(clean(-v if sign else v))
+        return frac_text(clean(-v if sign else v, level))
     return frac_text(Fraction(int(e.p), int(e.q)))
 
 
@@ -86,27 +92,27 @@ def _fold(op, items):
     return t
 
 
-def hint_convert(expr, symbols_map, d, flag):
+def hint_convert(expr, symbols_map, d, flag, level=14):
     """(printed text or None, hint): follows _convert_internal_expression_to_pddl of the library, using the library's own
     extract_atom / is_number_string for every decision; the hint is the same tree with exact constants, the dropped
     terms kept"""
     if expr.is_Atom:
         s = nso.extract_atom(expr, symbols_map, d, flag)
         if expr.is_number and not expr.is_Integer:
-            return s, exact_text(expr)
+            return s, exact_text(expr, level)
         return s, (s if s is not None else "0")
     if isinstance(expr, Pow):
         n = int(expr.exp)
         if not expr.exp.is_Integer or n == 0:
             raise ValueError("exponent")
-        bs, bh = hint_convert(expr.base, symbols_map, d, flag)
+        bs, bh = hint_convert(expr.base, symbols_map, d, flag, level)
         bs = bs if bs else "0"
         ts, th = bs, bh
         for _ in range(abs(n) - 1):
             ts, th = "(* %s %s)" % (ts, bs), "(* %s %s)" % (th, bh)
         return (ts, th) if n > 0 else ("(/ 1 %s)" % ts, "(/ 1 %s)" % th)
     op = nso.SYMPY_OP_TO_PDDL_OP[expr.func]
-    comps = [hint_convert(a, symbols_map, d, flag) for a in expr.args]
+    comps = [hint_convert(a, symbols_map, d, flag, level) for a in expr.args]
     if isinstance(expr, Mul) and any(not c[0] for c in comps):
         return None, _fold("*", [c[1] for c in comps])
     kept = [c for c in comps if c[0]]
@@ -149,35 +155,36 @@ def _sexp(text):
 
 
 def cond_hints(cond_text, table, extra_right=()):
-    """candidate hints for one printed condition (op L R): every combination of the hints recorded for texts equal to L and R"""
+    """candidate hints for one printed condition (op L R): the hints recorded for texts equal to L and R, paired level by
+    level (the same assumed noise on both sides)"""
     try:
         e = _sexp(cond_text)
         if not (isinstance(e, list) and len(e) == 3 and e[0] in CMP):
             return []
         l, r = _show(e[1]), _show(e[2])
-        ls = table.get(l, []) + [l]
-        rs = table.get(r, []) + list(extra_right) + [r]
+        n = len(LEVELS)
+        ls = table.get(l, [l] * n)
+        rs = table.get(r, [r] * n)
         out = []
-        for a in ls:
-            for b in rs:
-                h = "(%s %s %s)" % (e[0], a, b)
-                if h != _show(e) and h not in out:
-                    out.append(h)
-        return out[:6]
+        for a, b in list(zip(ls, rs)) + [(a, x) for a in ls[:1] for x in extra_right]:
+            h = "(%s %s %s)" % (e[0], a, b)
+            if h != _show(e) and h not in out:
+                out.append(h)
+        return out
     except Exception:  # noqa
         return []
 
 
 def hint_table():
+    """printed text -> its hints, one per level"""
     table = {}
     for g in _LOG:
-        if g.get("kind") == "convert" and g.get("hint") and isinstance(g.get("result"), str):
+        if g.get("kind") == "convert" and len(g.get("hints") or []) == len(LEVELS) and isinstance(g.get("result"), str):
             try:
                 key = _show(_sexp(g["result"]))
             except Exception:  # noqa
                 continue
-            if g["hint"] not in table.setdefault(key, []):
-                table[key].append(g["hint"])
+            table.setdefault(key, g["hints"])
     return table
 
 
@@ -194,10 +201,13 @@ def _rec_convert(expr, symbolic_vars, decimal_digits=nso.DEFAULT_DECIMAL_DIGITS,
                           should_remove_trailing_zeros=should_remove_trailing_zeros)
         entry["result"] = r
         try:
-            t, h = hint_convert(expr, {v: k for k, v in (symbolic_vars or {}).items()}, decimal_digits,
-                                should_remove_trailing_zeros)
-            if (t if t else "0") == r:
-                entry["hint"] = h
+            hints = []
+            for level in LEVELS:
+                t, h = hint_convert(expr, {v: k for k, v in (symbolic_vars or {}).items()}, decimal_digits,
+                                    should_remove_trailing_zeros, level)
+                if (t if t else "0") == r:
+                    hints.append(h)
+            entry["hints"] = hints
         except Exception as ex:  # noqa
             entry["hint_error"] = repr(ex)
         return r
@@ -342,7 +352,11 @@ def make_hints(job, out):
         return []
     table = hint_table()
     if job["entry"] == "expr":
-        return [h for h in table.get(_show(_sexp(out["ok"][0])), [])][:4]
+        hs = []
+        for h in table.get(_show(_sexp(out["ok"][0])), []):
+            if h not in hs:
+                hs.append(h)
+        return hs
     conds = out["ok"]
     if job["entry"] == "print":
         e = _sexp(out["ok"][0])
@@ -359,7 +373,7 @@ def make_hints(job, out):
         c = _show(_sexp(c))
         if c not in hints:
             hints.append(c)
-    return hints[:12]
+    return hints[:16]
 
 
 def _show(e):
